@@ -138,10 +138,14 @@ func judge(sc Scenario, o obs, wBeforeDel, wAfterDel bool, add func(sig, msg str
 			// written before the delete began -> must never be returned again. A concurrent in-range write
 			// (v=99) is a different point version: allowed unless it returned before the delete began.
 			if present && v == orig {
-				add("deleted-point-returned/"+o.when, fmt.Sprintf("s1 t=%d (deleted range, written before the delete began) is returned %s: s1=[%s]", t, o.when, fmtPts(o.s1)))
+				res := "[tsm-resident]"
+				if sc.Layout == "cache" || t == 3 {
+					res = "[cache-resident]"
+				}
+				add("deleted-point-returned/"+o.when, fmt.Sprintf("s1 t=%d %s (deleted range, written before the delete began) is returned %s: s1=[%s]", t, res, o.when, fmtPts(o.s1)))
 			}
 			if present && v == 99 && wBeforeDel {
-				add("deleted-point-returned/"+o.when+"/writer-finished-before-delete", fmt.Sprintf("s1 t=%d v=99 written before the delete began is returned %s", t, o.when))
+				add("deleted-point-returned/"+o.when+"/writer-finished-before-delete", fmt.Sprintf("s1 t=%d v=99 [cache-resident] written before the delete began is returned %s", t, o.when))
 			}
 			if !present && sc.Writer == "in-range" && t == 2 && wAfterDel {
 				add("write-after-delete-lost/"+o.when, fmt.Sprintf("s1 t=2 v=99 written after the delete returned is missing %s: s1=[%s]", o.when, fmtPts(o.s1)))
@@ -150,7 +154,7 @@ func judge(sc Scenario, o obs, wBeforeDel, wAfterDel bool, add func(sig, msg str
 			add("undeleted-point-missing/"+o.when, fmt.Sprintf("s1 t=%d (outside the deleted range) missing or changed %s: s1=[%s]", t, o.when, fmtPts(o.s1)))
 		}
 	}
-	if sc.Writer == "out-of-range" {
+	if sc.Writer == "out-of-range" && !in(4) {
 		if v, ok := got[4]; !ok || v != 4 {
 			add("undeleted-point-missing/"+o.when, fmt.Sprintf("s1 t=4 (written by the concurrent writer, outside the deleted range) missing %s: s1=[%s]", o.when, fmtPts(o.s1)))
 		}
@@ -163,7 +167,7 @@ func judge(sc Scenario, o obs, wBeforeDel, wAfterDel bool, add func(sig, msg str
 func runScenario(t *testing.T, sc Scenario, prefix []int) (*vrt.Result, result) {
 	var res result
 	add := func(sig, msg string) { res.verdicts = append(res.verdicts, sig+"|"+msg) }
-	h := &vrt.Harness{Name: sc.String(), Body: func(x *vrt.Exec) {
+	h := &vrt.Harness{Name: sc.String(), Filter: branchHere, DeviationCost: true, Body: func(x *vrt.Exec) {
 		dir := vlib.Scratch("c03-")
 		defer os.RemoveAll(dir)
 		e, err := engkit.Open(dir)
@@ -264,6 +268,14 @@ func runScenario(t *testing.T, sc Scenario, prefix []int) (*vrt.Result, result) 
 	return r, res
 }
 
+// branchHere selects the points at which schedules branch: the sync operations of Engine and Cache
+// (and the harness steps). All other tsm1 locks are modelled too (a contended one disables the thread)
+// but are passed silently when free.
+func branchHere(kind vrt.OpKind, label string) bool {
+	return kind == vrt.OpHook || strings.Contains(label, "(*Engine)") || strings.Contains(label, "(*Cache)") ||
+		strings.Contains(label, "(*entry)") || strings.Contains(label, "(*compactionStrategy)")
+}
+
 func scenarios(thorough bool) []Scenario {
 	var out []Scenario
 	for _, lay := range []string{"cache", "tsm+cache", "2tsm+cache"} {
@@ -358,11 +370,31 @@ func TestCheck(t *testing.T) {
 						for _, s := range r.Steps {
 							cs.Trace = append(cs.Trace, fmt.Sprintf("T%d %s", s.Thread, s.Label))
 						}
-						sig := p[0] + "/delete||" + sc.Other
-						if sc.Writer != "" {
-							sig += "||write-" + sc.Writer
+						sig := p[0]
+						if strings.HasPrefix(sig, "deleted-point-returned/") {
+							// attribute: was the returned point part of a cache snapshot taken before the delete reached the cache?
+							snapAt, delAt := -1, -1
+							for i, s := range r.Steps {
+								if snapAt < 0 && strings.Contains(s.Label, "(*Cache).Snapshot:Lock") {
+									snapAt = i
+								}
+								if delAt < 0 && strings.Contains(s.Label, "(*Cache).DeleteRange:Lock") {
+									delAt = i
+								}
+							}
+							if snapAt >= 0 && (delAt < 0 || snapAt < delAt) && strings.Contains(p[1], "[cache-resident]") {
+								sig = "deleted-point-returned/point-in-cache-snapshot-taken-before-Cache.DeleteRange"
+							}
 						}
-						sig += "/layout=" + sc.Layout
+						if !strings.HasPrefix(sig, "deleted-point-returned/point-in-cache-snapshot") {
+							sig += "/delete||" + sc.Other
+							if sc.Writer != "" {
+								sig += "||write-" + sc.Writer
+							}
+						}
+						if !strings.HasPrefix(sig, "deleted-point-returned/point-in-cache-snapshot") {
+							sig += "/layout=" + sc.Layout
+						}
 						c.Violation(sig, sc.String()+": "+p[1], cs)
 					}
 					if c.WantSample() && r.Preempts > 0 {
